@@ -44,8 +44,9 @@ class Counter(shim.Handler):
 
 
 class Injector(shim.Handler):
-    def __init__(self, target):
+    def __init__(self, target, flavour='eio'):
         super().__init__()
+        self.flavour = flavour
         self.target = target
         self.count = 0
         self.fired = None
@@ -59,6 +60,8 @@ class Injector(shim.Handler):
             if ev['op'] == 'sql':
                 from sqlalchemy.exc import OperationalError  # pylint: disable=import-outside-toplevel
                 raise OperationalError('injected', None, Exception('disk I/O error (injected)'))
+            if self.flavour == 'eacces':
+                raise PermissionError(errno.EACCES, f"injected permission error at {ev['op']} {ev['obj']}")
             raise OSError(errno.EIO, f"injected I/O error at {ev['op']} {ev['obj']}")
 
 
@@ -107,11 +110,16 @@ def run_scenario(job):
         clean_raised = _run_op(scenario, os.path.join(run0, 'c'), contents, counter)
         shutil.rmtree(run0)
         n_candidates = len(counter.candidates)
-        for k in range(1, n_candidates + 1):
-            run = os.path.join(work, f'run{k}')
+        plan = [(k, 'eio') for k in range(1, n_candidates + 1)]
+        # a second flavour for the calls around which the library has PermissionError handlers (locked / unreadable files)
+        plan += [(k, 'eacces') for k in range(1, n_candidates + 1)
+                 if counter.candidates[k - 1]['op'] in ('open', 'unlink', 'rename', 'replace')
+                 and counter.candidates[k - 1]['obj'].startswith(('loose:', 'dup:'))]
+        for k, flavour in plan:
+            run = os.path.join(work, f'run{k}{flavour}')
             shutil.copytree(os.path.dirname(base), run)
             folder = os.path.join(run, 'c')
-            injector = Injector(k)
+            injector = Injector(k, flavour)
             raised = _run_op(scenario, folder, contents, injector)
             obs, views = crash.examine(folder, contents, key_of)
             # rerun through a new handle once the fault has cleared
@@ -133,7 +141,7 @@ def run_scenario(job):
                 _obs2, views2 = crash.examine(folder, contents, key_of)
                 rerun['present'] = [v['k'] for v in views2 if v['has'] and v['cls'] == 'OK']
                 rerun['allok'] = all(v['cls'] in ('OK', 'NotExistent') for v in views2)
-            lines.append({'point': k, 'kind': 'fault', 'ev': injector.fired or counter.candidates[k - 1], 'raised': bool(raised),
+            lines.append({'point': k, 'kind': 'fault', 'flavour': flavour, 'ev': injector.fired or counter.candidates[k - 1], 'raised': bool(raised),
                           'exc': raised, 'obs': obs, 'views': views, 'rerun': rerun})
             shutil.rmtree(run)
     return {'scenario': scenario.name, 'index': scenario_index, 'acked': scenario.acked(), 'adds': scenario.adds,
@@ -168,10 +176,10 @@ def check_C17(report: common.Report):
             continue
         seen.add(key)
         sig = {'invariant': inv, 'scenario': trace['scenario'].split(':')[0], 'event': ev.get('op'),
-               'obj': re.sub(r'\d+$', '', ev.get('obj', '')), 'sqlkind': ev.get('kind', '')}
+               'obj': re.sub(r'\d+$', '', ev.get('obj', '')), 'sqlkind': ev.get('kind', ''), 'flavour': line['flavour']}
         bad_views = [v for v in line['views'] if v['cls'] not in ('OK', 'NotExistent')]
         report.violation(sig, {'driver': 'fault', 'scenario': trace['scenario'], 'point': line['point'], 'invariant': inv},
-                         f"{inv}: scenario {trace['scenario']}, call #{line['point']} {ev} failed with an I/O error; "
+                         f"{inv}: scenario {trace['scenario']}, call #{line['point']} {ev} failed with {line['flavour']}; "
                          f"operation raised={line['exc'] or 'nothing'}; rerun={line['rerun']}; "
                          f"obs={json.dumps(line['obs'])[:500]} bad_views={bad_views}")
     raised = sum(1 for t in traces for ln in t['lines'] if ln['raised'])
